@@ -390,7 +390,8 @@ func (e *endpointManager) SelectAdapterProxy(msg *Message) (*AdapterProxy, bool)
 random:
 	if adp == nil && !e.directProxy {
 		// not any node is alive, just select a random one.
-		randomEpf := e.activeEpf[e.rand.Intn(len(e.activeEpf))]
+		// the package-level generator is safe for the concurrent callers that arrive here; e.rand is not
+		randomEpf := e.activeEpf[rand.Intn(len(e.activeEpf))]
 		randomEp := endpoint.Tars2endpoint(randomEpf)
 		if v, ok := e.epList.Load(randomEp.Key); ok {
 			adp = v.(*AdapterProxy)
